@@ -7,6 +7,7 @@ import Driver.QNameDriver
 import Driver.VersionDriver
 import Driver.VCacheDriver
 import Driver.PartitionDriver
+import Driver.ConfigDriver
 open Driver
 
 def main (args : List String) : IO UInt32 := do
@@ -21,5 +22,6 @@ def main (args : List String) : IO UInt32 := do
   | ["version"] => loop VersionDriver.stepLine stdin stdout ({} : VersionDriver.St); return 0
   | ["vcache"] => loop VCacheDriver.stepLine stdin stdout ({} : Memento.VersionCache.St); return 0
   | ["partition"] => loop PartitionDriver.stepLine stdin stdout (none : Option Memento.Partition.Part); return 0
+  | ["config"] => loop ConfigDriver.stepLine stdin stdout (); return 0
   | ["store"] => loop StoreDriver.stepLine stdin stdout StoreDriver.St.none; return 0
   | _ => IO.eprintln "usage: mmodel <model>"; return 2
